@@ -197,9 +197,30 @@ def adj_from_rows(rows):
     return a
 
 
-def put_graph(store, name, k, rows, with_adj=True, order_seed=None):
-    store.put(name + ".acc", "acc", numpy.array(rows, dtype=int), k=k, graph=name)
-    store.put(name + ".lm", "lm", lm_from_rows(rows, order_seed=order_seed), k=k, graph=name)
+def make_accessor(rows, layout=None):
+    """The accessor as users may hold it: C-contiguous (default), Fortran-ordered, or a non-contiguous view."""
+    acc = numpy.array(rows, dtype=int)
+    if layout == "F":
+        return numpy.asfortranarray(acc)
+    if layout == "view":
+        wide = -numpy.ones((len(rows), 8), dtype=int)
+        wide[:, ::2] = acc
+        return wide[:, ::2]
+    return acc
+
+
+def as_lm_type(lm, lm_type=None):
+    if lm_type == "defaultdict":
+        import collections
+        d = collections.defaultdict(list)
+        d.update(lm)
+        return d
+    return lm
+
+
+def put_graph(store, name, k, rows, with_adj=True, order_seed=None, layout=None, lm_type=None):
+    store.put(name + ".acc", "acc", make_accessor(rows, layout), k=k, graph=name)
+    store.put(name + ".lm", "lm", as_lm_type(lm_from_rows(rows, order_seed=order_seed), lm_type), k=k, graph=name)
     if with_adj and k <= 3:
         store.put(name + ".adj", "adj", adj_from_rows(rows), k=k, graph=name)
 
@@ -338,13 +359,15 @@ def op_new(op, world, ctx):
     store, kind, name = world.store, op["kind"], op["name"]
     if kind == "graph":
         rows = G.arcs_to_rows(op["arcs"], op["k"])
-        put_graph(store, name, op["k"], rows, order_seed=op.get("lm_order"))
+        put_graph(store, name, op["k"], rows, order_seed=op.get("lm_order"), layout=op.get("layout"),
+                  lm_type=op.get("lm_type"))
     elif kind == "mask":
         arr = numpy.array([c == "1" for c in op["bits"]], dtype=bool)
         store.put(name, "mask", arr.astype(int) if op.get("dtype") == "int" else arr, k=op["k"])
     elif kind == "table":
         store.put(name, "table", numpy.array([[int(c) for c in op["digits"][4 * v: 4 * v + 4]]
-                                              for v in range(4 ** op["k"])], dtype=int), k=op["k"])
+                                              for v in range(4 ** op["k"])],
+                                             dtype=getattr(numpy, op["dtype"]) if op.get("dtype") else int), k=op["k"])
     elif kind == "filter":
         cfg = op["cfg"]
         store.put(name, "filter", world.dsw.LocalBioFilter(observed_length=cfg["k"], max_homopolymer_runs=cfg["runs"],
@@ -392,9 +415,10 @@ def op_new(op, world, ctx):
         acc = store.objs[src + ".acc"]
         k = store.meta[src + ".acc"]["k"]
         rows = acc.tolist()
-        store.put(name + ".acc", "acc", numpy.array(rows, dtype=int), k=k, graph=name, pair=name)
-        store.put(name + ".lm", "lm", lm_from_rows(rows, numpy_keys=op.get("numpy_keys", False),
-                                                   order_seed=op.get("lm_order")), k=k, graph=name, pair=name)
+        store.put(name + ".acc", "acc", make_accessor(rows, op.get("layout")), k=k, graph=name, pair=name)
+        store.put(name + ".lm", "lm", as_lm_type(lm_from_rows(rows, numpy_keys=op.get("numpy_keys", False),
+                                                              order_seed=op.get("lm_order")), op.get("lm_type")),
+                  k=k, graph=name, pair=name)
         world.pairs[name] = {"arcs": set(M.arcs(rows)), "k": k, "removed": 0, "dead": False}
     else:
         raise HarnessError("NEW kind %r" % kind)
@@ -718,6 +742,17 @@ def oracle_c18_walks(op, world, ctx, out, live, reference, det, kwargs):
         return
     det = dict(det, k=k, fast=bool(kwargs.get("is_faster")))
     if fn_name == "encode":
+        if ctx.fresh:
+            # shuffling must not change whether encoding works at all: same call without the table, fresh process
+            plain = dict(kwargs)
+            plain["shuffles"] = None
+            ensure_zygote()
+            ref2 = ZYGOTE.evaluate({"fn": "encode", "kwargs": pickle.dumps(plain, protocol=4), "rng_seed": None,
+                                    "budget": BUDGET.get("encode", DEFAULT_BUDGET)})["norm"]
+            if ref2[0] != live[0]:
+                return ctx.fail("shuffles-keep-walks", "encode with a permutation table %s, without the table it %s" %
+                                ("returned" if live[0] == "returned" else "failed (%s %s)" % (live[1], live[2][:80]),
+                                 "returned" if ref2[0] == "returned" else "failed (%s)" % ref2[1]), **det)
         if out.kind != "returned":
             st.vacuous += 1
         else:
